@@ -396,6 +396,55 @@ def has_dup_target(pre, root):
     return False
 
 
+def in_domain(cmd, pre):
+    """arguments for which the documented behaviour is "succeeds" (valid, duplicate-free ids / selections): an
+    exception on these is a violation of the property, not a rejected input"""
+    ws = cmd.split()
+    op, n = ws[0], pre.n
+
+    def sel_ok(w):
+        k, v = w[0], int(w[1:])
+        return 0 <= v < n
+
+    def sel_target(w):
+        k, v = w[0], int(w[1:])
+        if k == "d":
+            return pre.order[v] if pre.order is not None and sorted(pre.order) == list(range(n)) else None
+        return v
+    try:
+        if op == "add":
+            return True
+        if op == "move":
+            if ws[1] == "-":
+                return False
+            ids = [int(x) for x in ws[1].split(",")]
+            return len(set(ids)) == len(ids) and all(0 <= i < n for i in ids) and int(ws[2]) >= 0
+        if op == "reorder":
+            if ws[1] == "None":
+                return True
+            if ws[1] == "-":
+                return False
+            ids = [int(x) for x in ws[1].split(",")]
+            return n > 0 and sorted(ids) == list(range(n))
+        if op == "remove":
+            if ws[1] == "-":
+                return True
+            sels = ws[1].split(",")
+            if not all(sel_ok(w) for w in sels):
+                return False
+            tg = [sel_target(w) for w in sels]
+            return None not in tg and len(set(tg)) == len(tg)
+        if op in ("get", "copy", "pp"):
+            if not sel_ok(ws[1]):
+                return False
+            return ws[1][0] != "d" or sel_target(ws[1]) is not None
+        if op == "import":
+            return ws[2] != "-" or int(ws[1]) == -1
+    except Exception:
+        return False
+    return False
+
+
 def changes_state(cmd):
     return cmd.split()[0] not in ("get", "init", "setorder", "eff")
 
@@ -464,6 +513,9 @@ class Runner:
             hist.append(cmd)
             replay = {"env": env, "base": base, "ops": hist[1:]}
             if st == "error":
+                if in_domain(body, pre):
+                    self.violation({"op": body.split()[0], "clause": "raised"}, f"{body} raised {ret} on in-domain arguments  [after {hist}]",
+                                   replay, len(base) + sum(len(h) for h in hist))
                 self.push(cmd, "error", replay)
                 status = "error"
                 break
@@ -480,7 +532,7 @@ class Runner:
                     sig["dup_target"] = has_dup_target(pre, real._sel_obj(pre, ws[1]))
                     sig["grouped"] = body.split()[0] == "treepp" and ws[5] != "none"
                 self.violation(sig, f"{text}  [after {hist}]", replay, len(base) + sum(len(h) for h in hist))
-                if clause in ("id-position", "effects-kept"):
+                if clause in ("id-position", "effects-kept", "display-perm"):
                     stop = True
             if stop:
                 status = "violation"
